@@ -84,6 +84,12 @@ CHECKS = {
              "exponent multiple of three, mantissa range, complex parts/signs/angles, sinusoid labels; bounded-exhaustive over all p-digit mantissas "
              "(p<=3) x all decades x binary64 neighbours x every prefix table, random elsewhere. Two range-rule defects are recorded as known findings.",
         design='5/C18', technique='runtime oracle: independent exact-decimal parser over bounded-exhaustive and random renderings'),
+    'C17': dict(
+        text="Runtime oracle + purity sentinels on load_network / load_network_from_json / to_complex / undictify_* / serialize / deserialize / "
+             "dump / load / undictify_circuit / generate_component: every kind of both loader tables, both complex notations and the degree "
+             "option, repeated loads of the same object, nested documents through JSON and YAML (strings and files); loaded elements are "
+             "compared with an independent reading of the description, documents structurally, arguments by deep fingerprint before/after.",
+        design='5/C17', technique='runtime oracle (independent reading of the description) + before/after fingerprint sentinels'),
 }
 
 NOT_YET = "check not built yet in this round (work in progress; see DESIGN.md section 5)"
